@@ -994,6 +994,11 @@ class Interp:
         self.path.trace.append(("yield", "yield", v))
         return None
 
+    def e_NamedExpr(self, e, frame):
+        v = self.eval(e.value, frame)
+        self.assign(e.target, v, frame)
+        return v
+
     def e_Lambda(self, e, frame):
         return _Closure(e, frame, self)
 
